@@ -125,6 +125,10 @@ type fakeSrv struct {
 	mkdirFails  bool
 	statMissing bool // STAT (and LSTAT unless lstatDir) answer NO_SUCH_FILE
 	lstatDir    bool // LSTAT answers a directory
+	// tree, when set, replaces the one-batch directory: path → the READDIR batches of that directory (then EOF).
+	// Paths in tree are directories for STAT/LSTAT, every other path is a file. (C04 composites)
+	tree    map[string][][]wire.NameEnt
+	dirPath map[string]string // directory handle → path (tree only)
 }
 
 func newFakeSrv(size uint64) *fakeSrv { return &fakeSrv{size: size, dirReads: map[string]int{}} }
@@ -156,6 +160,15 @@ func (f *fakeSrv) Reply(p wire.Pkt) []byte {
 		return wire.HandleFrame(q.ID, fmt.Sprintf("fh%d", f.handles))
 	case wire.Opendir:
 		f.handles++
+		if f.tree != nil {
+			if _, ok := f.tree[q.Path]; !ok {
+				return wire.StatusFrame(q.ID, wire.NoSuchFile, "no such directory")
+			}
+			if f.dirPath == nil {
+				f.dirPath = map[string]string{}
+			}
+			f.dirPath[fmt.Sprintf("dh%d", f.handles)] = q.Path
+		}
 		return wire.HandleFrame(q.ID, fmt.Sprintf("dh%d", f.handles))
 	case wire.Close:
 		return ok()
@@ -168,11 +181,21 @@ func (f *fakeSrv) Reply(p wire.Pkt) []byte {
 		if f.statMissing && q.Path != "probe" && q.Path != "probe2" && !strings.HasPrefix(q.Path, "race-") {
 			return wire.StatusFrame(q.ID, wire.NoSuchFile, "no such file")
 		}
+		if f.tree != nil {
+			_, isDir := f.tree[q.Path]
+			return wire.AttrsFrame(q.ID, f.attrs(isDir))
+		}
 		return wire.AttrsFrame(q.ID, f.attrs(q.Path == "dir"))
 	case wire.Fstat:
 		return wire.AttrsFrame(q.ID, f.attrs(false))
 	case wire.Readdir:
 		f.dirReads[q.Handle]++
+		if f.tree != nil {
+			if b := f.tree[f.dirPath[q.Handle]]; f.dirReads[q.Handle] <= len(b) {
+				return wire.NameFrame(q.ID, b[f.dirReads[q.Handle]-1])
+			}
+			return wire.StatusFrame(q.ID, wire.EOF, "EOF")
+		}
 		if f.dirReads[q.Handle] == 1 {
 			return wire.NameFrame(q.ID, []wire.NameEnt{
 				{Name: ".", Long: "drwxr-xr-x 1 u g 0 Jan 1 00:00 .", A: f.attrs(true)},
